@@ -403,7 +403,7 @@ def run_c19(t, tier, res):
         tr = trainer.train(None, vopts, rule="V_" + name, raw=data, uuid_seed=3, filename="train.txt")
         res.stats["variant_" + name] += 1
         res.faults["junk_lines"] += n_junk
-        res.faults["hex_lines"] += n_hex
+        res.stats["hex_lines"] += n_hex
         if n_hex and n_junk:
             nontriv = True
         if tr.exc:
